@@ -103,6 +103,10 @@ type Scenario struct {
 	Steps       []Step                               `json:"steps"`
 	DebugLines  int                                  `json:"debug_lines"`
 	NoReset     bool                                 `json:"noreset"`
+	// for the model of newEngine's tail: the rules files that exist (in flag order) and which file the direct engine's
+	// load error (per version) belongs to
+	RuleFiles     []string          `json:"rule_files"`
+	DirectErrFile map[string]string `json:"direct_err_file"`
 }
 
 type pkgT struct {
@@ -483,7 +487,8 @@ func main() {
 	for id := *first; id < *first+*n; id++ {
 		rng := rand.New(rand.NewSource(*seed*7919 + int64(id)))
 		sc := Scenario{ID: id, NoReset: *noreset, AllGroups: map[string][]string{}, DirectErr: map[string]string{},
-			Direct: map[string]map[string][]DirectReport{}, LoadedByVer: map[string][]string{}}
+			Direct: map[string]map[string][]DirectReport{}, LoadedByVer: map[string][]string{},
+			DirectErrFile: map[string]string{}}
 		dir := filepath.Join(*tmp, fmt.Sprintf("sc%d", id))
 		os.MkdirAll(dir, 0o755)
 
@@ -586,6 +591,9 @@ func main() {
 				fl.Rules += "," + filepath.Join(dir, "missing.go")
 			}
 		}
+		if mode == "rules" || mode == "rules+e" {
+			sc.RuleFiles = append([]string{}, fileNames...)
+		}
 		eRule := "m.Match(`pa1($*_)`)"
 		if mode == "e" || mode == "rules+e" {
 			fl.E = eRule
@@ -613,6 +621,7 @@ func main() {
 					}
 					if err := e.Load(lctx, fn, strings.NewReader(string(data))); err != nil {
 						lerr = err
+						sc.DirectErrFile[key] = fn
 						break
 					}
 				}
@@ -620,6 +629,9 @@ func main() {
 				// hand-written equivalent of the adapter's -e template (group name `e`, file name `e`)
 				txt := "package gorules\nimport \"github.com/quasilyte/go-ruleguard/dsl\"\nfunc e(m dsl.Matcher) {\n" + eRule + ".Report(\"$$\")\n}\n"
 				lerr = e.Load(lctx, "e", strings.NewReader(txt))
+				if lerr != nil {
+					sc.DirectErrFile[key] = "e"
+				}
 			case "none":
 				lerr = fmt.Errorf("no rules")
 			}
